@@ -156,3 +156,11 @@ func fnv(s string) uint64 {
 func (e *emitter) mine(key string) bool {
 	return e.nshards <= 1 || fnv(key)%uint64(e.nshards) == uint64(e.shard)
 }
+
+func sortStrings(xs []string) {
+	for i := 1; i < len(xs); i++ {
+		for j := i; j > 0 && xs[j] < xs[j-1]; j-- {
+			xs[j], xs[j-1] = xs[j-1], xs[j]
+		}
+	}
+}
